@@ -242,7 +242,7 @@ def shards(tier, seed):
     for i in range(kj):
         out.append({'part': 'docs', 'm1': 'json', 'n': nj // kj + 1, 'sub': i})
     # one parsed grid dumped by two threads at once (reading a grid from several threads is sharing nothing but the grid)
-    out.append({'part': 'threads', 'bound': 1 if tier == 'quick' else 2, 'cap': 500 if tier == 'quick' else 20000})
+    out.append({'part': 'threads', 'bound': 1 if tier == 'quick' else 2, 'cap': 500 if tier == 'quick' else 4000})
     if tier == 'thorough':
         for hseed in (1, 2, 3, 4, 5, 6, 7, 8):
             out.append({'part': 'hashseed', 'n': 300, 'env': {'PYTHONHASHSEED': str(hseed)}, 'hseed': hseed})
